@@ -444,8 +444,9 @@ def poison_results(tree, typed, kinds=("a", "zz")):
             # a list that an earlier caller mutated came back: one shared object is handed out to everybody.  The
             # foreign entries are taken out again so that the shared object cannot grow without bound during a run.
             r[:] = [x for x in r if getattr(x, "_tree", None) is tree]
-            return (f"{name} of {who} returned a list that contains {len(alien)} node(s) of ANOTHER tree: the list object is shared "
-                    f"with an earlier caller who modified the result it had received")
+            return (f"{name} of {who} returned a list that contains {len(alien)} node(s) that are NOT nodes of this tree (of another "
+                    f"tree, or removed): the list object is shared with an earlier caller who modified the result it had received, "
+                    f"or it was computed for an older state")
         r.append(foreign)
         r.insert(0, foreign)
         if len(r) > 2:
@@ -505,5 +506,65 @@ def replace_same_length(shape_nodes, typed):
                 if q != p and q != i and j != p:
                     yield [["move", i, q, None], ["move", j, p, True]]
     for p in sorted({q for q, _, _ in flat}):
+        yield [["sort", p, False, False]]
         yield [["sort", p, True, False]]
-        yield [["sort", p, False, False], ["sort", p, True, False]]
+        yield [["sort", p, False, True], ["sort", p, True, False]]
+
+
+def typed_consistency(tree):
+    """kind-aware answers of a typed tree against the plain structure (pointer walk, identity): get_index(),
+    get_children(kind), has_children(kind) - asked by C10 as well, because they must agree with the sibling queries"""
+    for i, n in enumerate(B.all_nodes(tree._root)):
+        sibs = n._parent._children or []
+        same = [s for s in sibs if s._kind == n._kind]
+        pos = [j for j, s in enumerate(same) if s is n]
+        try:
+            gi = n.get_index()
+        except Exception as e:  # noqa: BLE001
+            gi = f"{type(e).__name__}"
+        if pos != [gi]:
+            return f"get_index() of typed node {i + 1} (pre-order): got {gi}, its position among the siblings of its kind is {pos}"
+        ch = n._children or []
+        for k in sorted({c._kind for c in ch} | {"zz"}):
+            exp = [c for c in ch if c._kind == k]
+            try:
+                got = n.get_children(k)
+                hc = n.has_children(k)
+            except Exception as e:  # noqa: BLE001
+                return f"get_children({k!r}) of typed node {i + 1} raised {type(e).__name__}"
+            if len(got) != len(exp) or any(a is not b for a, b in zip(got, exp)):
+                return (f"get_children({k!r}) of typed node {i + 1} (pre-order): got the children at positions "
+                        f"{[next((j for j, c in enumerate(ch) if c is g), -7) for g in got]} expected {[j for j, c in enumerate(ch) if c._kind == k]}")
+            if hc != bool(exp):
+                return f"has_children({k!r}) of typed node {i + 1}: got {hc} expected {bool(exp)}"
+    return None
+
+
+def guarded_call(tree, call, limit=14):
+    """wrap `call` so that the raw structure (every `_children` list in order, every `_parent`) is compared with
+    its state at the start after EVERY single query: a query that mutates is named by the source line of its thunk.
+    Trees larger than `limit` nodes are checked once per 25 queries."""
+    allp = [tree._root] + B.all_nodes(tree._root)
+
+    def snap():
+        return [(None if x._children is None else tuple(map(id, x._children)), id(x._parent)) for x in allp]
+
+    base = snap()
+    state = dict(count=0, fail=None)
+    every = 1 if len(allp) <= limit + 1 else 25
+
+    def gcall(fn):
+        r = call(fn)
+        state["count"] += 1
+        if state["fail"] is None and state["count"] % every == 0 and snap() != base:
+            code = fn.__code__
+            state["fail"] = (f"query no. {state['count']} of the battery ({code.co_filename.rsplit('/', 1)[-1]}:{code.co_firstlineno}) "
+                             f"changed the tree: a read-only query altered a `_children` list or a `_parent`")
+        return r
+
+    def final():
+        if state["fail"] is None and snap() != base:
+            state["fail"] = "the query battery changed the tree (a read-only query altered a `_children` list or a `_parent`)"
+        return state["fail"]
+
+    return gcall, final
